@@ -120,7 +120,8 @@ func runC06(rc *sim.RunCtx) {
 		}
 		if wasOpen {
 			// the open transaction may have expired while the call was waiting; resynchronise the model by observation
-			if time.Now().After(s.deadline) || res.Err == nil {
+			// (at the very instant of the deadline the expiry has run as well: settle() lets the timer goroutine finish)
+			if !time.Now().Before(s.deadline) || res.Err == nil {
 				expire(step)
 			} else if res.Err != nil {
 				return
